@@ -407,6 +407,11 @@ pub trait DynCheck: Send + Sync {
     fn run(&self, ctx: &Ctx, prop: &str, known: &[KnownFinding]) -> CheckResult;
     /// Re-evaluates one saved case (from a replay file) without the generator.
     fn replay(&self, case: serde_json::Value) -> Result<Verdict, String>;
+    /// Isolated checks: serve cases from stdin in a worker process.  Returns false when the
+    /// check is not an isolated one.
+    fn serve_worker(&self) -> bool {
+        false
+    }
 }
 
 pub trait CaseT: Clone + Debug + Serialize + DeserializeOwned + Send + Sync + 'static {}
@@ -884,6 +889,9 @@ pub fn run_property(ctx: &Ctx, spec: &PropSpec, only: Option<&str>) -> RunOutcom
         stats.merge(r.stats);
         if let Some(f) = r.failure {
             failures.push(f);
+            // later sub-checks may share the failure mode (e.g. a hang found in an isolated
+            // worker would hang an in-process sub-check): stop at the first failing sub-check
+            break;
         }
     }
     let wall = start.elapsed().as_secs_f64();
@@ -1010,6 +1018,7 @@ pub fn replay_file(specs: &[PropSpec], path: &std::path::Path) -> i32 {
             if c.name() != check {
                 continue;
             }
+            std::env::set_var("VERIF_REPLAY_PROP", prop);
             return match c.replay(doc["case"].clone()) {
                 Ok(Verdict::Pass(_)) => {
                     println!("replay {}: property {} holds on this case", path.display(), prop);
